@@ -448,7 +448,41 @@ def _null_alloc(f, a, any_pos=False):
                     if r["k"] == "call" and r.get("callee") in ("calloc", "malloc") and \
                             (any_pos or (a.src is not None and (bid == a.src or flow.dominates(f, bid, a.src)))):
                         return True
+        # the result of an inlined helper that hands the allocation back: a local that is only ever NULL or a copy of a
+        # local holding the allocation
+        if any_pos and _holds_only_allocation(f, nm, 0):
+            return True
     return False
+
+
+def _holds_only_allocation(f, nm, depth):
+    if depth > 3:
+        return False
+    seen_alloc = False
+    for bid, i in flow.all_events(f):
+        for lhs, var, op, rhs in flow.stores(f, i):
+            who = var["name"] if var is not None else (f.exprs[ex.skip(f, lhs)].get("name") if lhs is not None and
+                                                       f.exprs[ex.skip(f, lhs)]["k"] == "ref" else None)
+            if who != nm:
+                continue
+            if rhs is None:
+                if var is not None:
+                    continue            # declaration without initialiser
+                return False
+            if op != "=":
+                return False
+            r = f.exprs[ex.skip(f, rhs)]
+            while r["k"] == "cast":
+                r = f.exprs[ex.skip(f, r["c"][0])]
+            if ex.is_null(f, rhs) or r.get("v") == 0:
+                continue
+            if r["k"] == "call" and r.get("callee") in ("calloc", "malloc"):
+                seen_alloc = True
+            elif r["k"] == "ref" and r.get("dk") == "local" and r["name"] != nm and _holds_only_allocation(f, r["name"], depth + 1):
+                seen_alloc = True
+            else:
+                return False
+    return seen_alloc
 
 
 def _walk_goes_on(ctx, run, f):
